@@ -44,6 +44,39 @@ def build(seed, n):
             return repr(ir_jsonable(parse.function(ast.parse(spec.src).body[0])))
 
         convs.append(("parse.function:{}".format(i), parse_fn))
+        if spec.kind == "static":
+
+            def live_fn(spec=spec, i=i):
+                # the same definition as a LIVE object of a real module (as `gen` feeds them), then emitted as a class
+                import importlib
+                import os
+                import shutil
+                import tempfile
+
+                from doctrans import emit, parse
+                from doctrans.source_transformer import to_code
+
+                d = tempfile.mkdtemp(prefix="dtverif-c12-live-")
+                modname = "zqlive_{}".format(i)
+                try:
+                    with open(os.path.join(d, modname + ".py"), "w") as f:
+                        f.write("from typing import *\nimport json\n"
+                                "class _S(type):\n    def __call__(c,*a,**k): return None\n    def __getattr__(c,n):\n"
+                                "        if n.startswith('__'): raise AttributeError(n)\n        return _S(n,(),{})\n"
+                                "np=_S('np',(),{})\ntf=_S('tf',(),{})\ntorch=_S('torch',(),{})\npathlib=_S('pathlib',(),{})\n"
+                                "def make_thing(*a): return None\n" + spec.src)
+                    sys.path.insert(0, d)
+                    try:
+                        mod = importlib.import_module(modname)
+                        ir = parse.function(getattr(mod, spec.name))
+                    finally:
+                        sys.path.remove(d)
+                        sys.modules.pop(modname, None)
+                    return repr(ir_jsonable(ir))
+                finally:
+                    shutil.rmtree(d, ignore_errors=True)
+
+            convs.append(("live.function->class:{}".format(i), live_fn))
         if i % 3 == 0:
             c = gen_class_with_init(rng)
 
